@@ -40,6 +40,9 @@ def race_stage(pid, tier, seed, BUILD, GOENV, known):
         res["samples"] = ["race driver: %s operations on shared objects x %d goroutines x %d rounds, each result compared with the result of the call made alone" % (m.group(1), workers, rounds)]
     races = out.count("WARNING: DATA RACE")
     res["data_races_reported"] = races
+    if "fatal error: concurrent map" in out:
+        res["violations"].append({"kind": "counterexample", "source": "Go runtime", "what": "concurrent map access aborted the process",
+                                  "detail": out[out.index("fatal error: concurrent map"):][:2000], "extra_replay_cmd": " ".join(cmd)})
     if races:
         first = out[out.index("WARNING: DATA RACE"):][:3000]
         res["violations"].append({"kind": "counterexample", "source": "race detector", "what": "data race",
